@@ -4,7 +4,7 @@
    called, and again whenever an ACKNACK has been accepted; `npend s` counts the parked callers;
    `delivered s`: the reliable matched reader (if it still exists) has been given every change the
    writer holds and that is relevant for it. *)
-From DustDDS Require Import Base.Machine Proto.RelModel Proto.RelProofs Proto.RelSound Proto.RelWitness.
+From DustDDS Require Import Base.Machine Proto.RelModel Proto.RelProofs Proto.RelSound Proto.RelLive Proto.RelAck Proto.RelWitness.
 Open Scope Z_scope.
 
 (* SOUNDNESS for KEEP_ALL writers (no removal from the history cache): for every schedule — any
@@ -41,6 +41,23 @@ Definition C03_wfa_completes_statement : Prop :=
 Theorem C03_wfa_completes_refuted_stale_waiter : ~ C03_wfa_completes_statement.
 Proof. exact wfa_completes_full_refuted. Qed.
 
+(* COMPLETION, the proved part (stage 1): KEEP_ALL writer, unfragmented samples, schedules without removal
+   from the history cache and without deletion of the reader (all loss / duplication / reordering / delay
+   patterns, late joiners), at most 256 samples, at least one sample relevant for the reader: after k + 1
+   healing rounds that drain the network and one more healing round that drains it, for a matched RELIABLE
+   pair the acknowledgement test holds and no caller of wait_for_acknowledgments is parked any more
+   (bounded time: k + 2 heartbeat periods of 250 ms). *)
+Theorem C03_wfa_completes_partial :
+  forall cf sched k,
+    0 < fsz cf -> depth cf = 0 -> forallb (live_act cf) sched = true ->
+    let s1 := run cf init (sched ++ heal (S k)) in
+    let s2 := run cf s1 heal_round in
+    s_last s2 <= 256 -> s_net s1 = [] -> s_net s2 = [] ->
+    (forall p, s_rp s1 = Some p -> rp_fr p < s_last s1) ->
+    forall p r w, s_rp s2 = Some p -> rp_rel p = true -> s_rd s2 = Some r -> rd_wp r = Some w ->
+      ackd s2 = true /\ npend s2 = 0%nat.
+Proof. exact wfa_completes_unfragmented. Qed.
+
 Theorem C03_stale_waiter_witness_reader :
   let s := run cf_plain init (sched_stale ADelReader) in
   s_rp s = None /\ s_dcps s = false /\ s_net s = [] /\
@@ -63,5 +80,6 @@ Print Assumptions C03_wfa_sound_immediate.
 Print Assumptions C03_wfa_sound_notified.
 Print Assumptions C03_wfa_sound_refuted_gap_skip.
 Print Assumptions C03_wfa_completes_refuted_stale_waiter.
+Print Assumptions C03_wfa_completes_partial.
 Print Assumptions C03_stale_waiter_witness_reader.
 Print Assumptions C03_stale_waiter_witness_participant.
